@@ -37,8 +37,8 @@ func main() {
 			nb, n := 16, 1
 			p := params{NumReqs: 120, Cuts: 5}
 			if tier == "thorough" {
-				nb, n = 32, 10
-				p = params{NumReqs: 250, Cuts: 0, MaxCuts: 120}
+				nb, n = 32, 6
+				p = params{NumReqs: 250, Cuts: 0, MaxCuts: 60}
 			}
 			var bs []kit.Batch
 			for i := 0; i < nb; i++ {
